@@ -195,15 +195,51 @@ func c10(p *P) {
 		if fn == nil {
 			continue
 		}
-		all := p.writeSites(fn, writers)
-		tableW := relabel(filterSinks(all, `^certstore\.Store\.putPowerTable\(`), "initial power-table write")
-		markW := relabel(filterSinks(all, `^certstore\.Store\.writeInstanceNumber\(.*certstore\.certStoreFirstKey`), "first-instance marker write")
-		p.before("C10.R2", fn, "initial power-table write", tableW, "first-instance marker write", markW)
-		if len(tableW) > 0 && len(markW) > 0 {
-			p.guarded("C10.R2", fn, markW, errFails("initial power-table write ok", "certstore.Store.putPowerTable", ""))
+		// the two creation writes may live in a shared helper (called by both creators): decide the order where they are
+		where, label := fn, name
+		for depth := 0; depth < 3; depth++ {
+			all := p.writeSites(where, writers)
+			tw := filterSinks(all, `^certstore\.Store\.putPowerTable\(`)
+			mw := filterSinks(all, `^certstore\.Store\.writeInstanceNumber\(.*certstore\.certStoreFirstKey`)
+			if len(tw) > 0 || len(mw) > 0 {
+				break
+			}
+			var next *ssa.Function
+			for _, s := range all {
+				ci, ok := s.Instr.(ssa.CallInstruction)
+				if !ok {
+					continue
+				}
+				h := ci.Common().StaticCallee()
+				if h == nil || h.Blocks == nil || funcName(h) == "certstore.open" {
+					continue
+				}
+				hall := p.writeSites(h, writers)
+				if len(filterSinks(hall, `^certstore\.Store\.putPowerTable\(`)) > 0 && len(filterSinks(hall, `^certstore\.Store\.writeInstanceNumber\(`)) > 0 {
+					next = h
+				}
+			}
+			if next == nil {
+				break
+			}
+			where, label = next, name+" (via "+funcName(next)+")"
 		}
-		for _, s := range all {
+		all := p.writeSites(where, writers)
+		tableW := relabel(filterSinks(all, `^certstore\.Store\.putPowerTable\(`), "initial power-table write")
+		markW := relabel(filterSinks(all, `^certstore\.Store\.writeInstanceNumber\(.*(certstore\.certStoreFirstKey|\$[0-9])`), "first-instance marker write")
+		if where == fn {
+			markW = relabel(filterSinks(all, `^certstore\.Store\.writeInstanceNumber\(.*certstore\.certStoreFirstKey`), "first-instance marker write")
+		}
+		p.before("C10.R2", where, "initial power-table write", tableW, "first-instance marker write", markW)
+		if len(tableW) > 0 && len(markW) > 0 {
+			p.guarded("C10.R2", where, markW, errFails("initial power-table write ok", "certstore.Store.putPowerTable", ""))
+		}
+		_ = label
+		for _, s := range p.writeSites(fn, writers) {
 			if len(filterSinks([]Sink{s}, `putPowerTable|writeInstanceNumber|certstore\.open\(`)) == 0 {
+				if ci, ok := s.Instr.(ssa.CallInstruction); ok && where != fn && ci.Common().StaticCallee() == where {
+					continue
+				}
 				r.Fail("C10.R2", name+": unclassified "+s.Label, p.c.InstrPos(s.Instr), "creation performs a datastore write other than the initial table and the marker")
 			}
 		}
